@@ -166,11 +166,36 @@ func (f *Fix) Deliver(msg sdk.Msg) (res *sdk.Result, err error) {
 			res = nil
 		}
 	}()
+	g0 := cctx.GasMeter().GasConsumed()
+	defer func() { noteGas(cctx.GasMeter().GasConsumed() - g0) }() // registered after the recover above: runs first
 	res, err = h(cctx, msg)
 	if err == nil {
 		write()
 	}
 	return res, err
+}
+
+// opGas (C12): gas consumed by every message delivered since the last emitted op line, in delivery
+// order, failed messages included (GasUsed of every tx result enters LastResultsHash).  Written on
+// the per-op digest line, so it is compared across replicas and never enters an observation.
+var opGas []uint64
+
+func noteGas(g uint64) {
+	if digestOut != nil {
+		opGas = append(opGas, g)
+	}
+}
+
+func takeGas() string {
+	if len(opGas) == 0 {
+		return "-"
+	}
+	xs := make([]string, len(opGas))
+	for i, g := range opGas {
+		xs[i] = fmt.Sprint(g)
+	}
+	opGas = opGas[:0]
+	return strings.Join(xs, ",")
 }
 
 // Try runs fn inside a cache context, writing only on success; panics become PanicError.
@@ -286,6 +311,11 @@ func SortedJoin(xs []string, sep string) string {
 // StoreDigest hashes the given module stores (all keys and values) — used to check that a rejected
 // operation left the custom-module state untouched.
 func (f *Fix) StoreDigest(storeNames ...string) string {
+	return f.StoreDigestAt(f.Ctx, storeNames...)
+}
+
+// StoreDigestAt: the same over the stores as seen from ctx (a branch of f.Ctx, e.g.)
+func (f *Fix) StoreDigestAt(ctx sdk.Context, storeNames ...string) string {
 	h := sha256.New()
 	km := f.App.GetKVStoreKeys()
 	var names []string
@@ -302,7 +332,7 @@ func (f *Fix) StoreDigest(storeNames ...string) string {
 		if len(want) > 0 && !want[n] {
 			continue
 		}
-		st := f.Ctx.MultiStore().GetKVStore(k)
+		st := ctx.MultiStore().GetKVStore(k)
 		it := st.Iterator(nil, nil)
 		h.Write([]byte(k.Name()))
 		for ; it.Valid(); it.Next() {
@@ -364,6 +394,10 @@ func (f *Fix) ImportedCopyOpt(withProposer bool) (f2 *Fix, exp1, exp2 map[string
 		return f2, exp1, nil, err
 	}
 	exp2 = a2.ExportState(f2.Ctx)
+	if digestOut != nil {
+		// C12: the stores of the freshly imported application (genesis import path of every module)
+		fmt.Fprintf(digestOut, "import h=%d %s\n", ih, f2.StoreDigest())
+	}
 	return f2, exp1, exp2, nil
 }
 
